@@ -281,43 +281,109 @@ func checkC08(r *core.Run) {
 		}
 		// baseline: rewardCoin replaced only under reward < rewardCoin.Amount (a guarded minimum)
 		nb := 0
-		for _, b := range fn.Blocks {
-			for _, ins := range b.Instrs {
-				st, ok := ins.(*ssa.Store)
-				if !ok {
-					continue
-				}
-				al, ok := st.Addr.(*ssa.Alloc)
-				if !ok || al.Comment != "rewardCoin" {
-					continue
-				}
-				vt := res.Of(st.Val).String()
-				if !strings.Contains(vt, "AnnualPercentageYield") {
-					continue // the initial assignment from the halving schedule
-				}
-				nb++
-				key := core.Key("G-mint", "node.BeginBlocker", "baseline replacement is a minimum")
-				// the comparison must be against the amount of the very coin being replaced: LT(x, load(&rewardCoin.Amount))
-				cmp := ""
-				for _, bb := range fn.Blocks {
-					if iff := lastIfOf(bb); iff != nil {
-						if c, ok := iff.Cond.(*ssa.Call); ok && c.Call.StaticCallee() != nil && c.Call.StaticCallee().Name() == "LT" && len(c.Call.Args) == 2 {
-							if ld, ok := c.Call.Args[1].(*ssa.UnOp); ok {
-								if fa, ok := ld.X.(*ssa.FieldAddr); ok && fa.X == al {
-									cmp = guard.Exact(res.Of(c).String())
+		anchorFn, anchorRes, anchorCk := fn, res, ck
+		for _, fr := range frames(r, anchorFn) {
+			fn := fr.Fn
+			res := r.Resolver(fn)
+			ck := &guard.Checker{P: r.P, Fn: fn, Res: res}
+			_, _, _ = anchorRes, anchorCk, anchorFn
+			for _, b := range fn.Blocks {
+				for _, ins := range b.Instrs {
+					st, ok := ins.(*ssa.Store)
+					if !ok {
+						continue
+					}
+					al, ok := st.Addr.(*ssa.Alloc)
+					if !ok || !strings.HasSuffix(al.Type().String(), "types.Coin") {
+						continue
+					}
+					vt := res.Of(st.Val).String()
+					if !strings.Contains(vt, "AnnualPercentageYield") {
+						continue // the initial assignment from the halving schedule
+					}
+					if vc, isCall := st.Val.(*ssa.Call); !isCall || vc.Call.StaticCallee() == nil || vc.Call.StaticCallee().Name() != "NewCoin" {
+						continue // the result of a helper that decides the reward: the clause is evaluated inside that helper
+					}
+					nb++
+					key := core.Key("G-mint", "node.BeginBlocker", "baseline replacement is a minimum")
+					// the comparison must be against the amount of the very coin being replaced: LT(x, load(&rewardCoin.Amount))
+					cmp := ""
+					for _, bb := range fn.Blocks {
+						if iff := lastIfOf(bb); iff != nil {
+							if c, ok := iff.Cond.(*ssa.Call); ok && c.Call.StaticCallee() != nil && c.Call.StaticCallee().Name() == "LT" && len(c.Call.Args) == 2 {
+								if ld, ok := c.Call.Args[1].(*ssa.UnOp); ok {
+									if fa, ok := ld.X.(*ssa.FieldAddr); ok && fa.X == al {
+										cmp = guard.Exact(res.Of(c).String())
+									}
 								}
 							}
 						}
 					}
+					if cmp == "" {
+						r.Violate("G-mint", key, r.P.Pos(st.Pos()), "the APY-based reward replaces the scheduled reward without being compared with the scheduled (halved) reward itself: more than the block reward for the current halving age can be minted")
+						continue
+					}
+					if okp, w := ck.MustPass(b, []guard.Atom{guard.True(cmp)}); okp {
+						r.Discharge("G-mint", key, r.P.Pos(st.Pos()), "the APY-based reward replaces the scheduled reward only when it is smaller")
+					} else {
+						r.Violate("G-mint", key, r.P.Pos(st.Pos()), "the APY-based reward can replace the scheduled block reward even when it is larger: more than the configured block reward could be minted", w...)
+					}
 				}
-				if cmp == "" {
-					r.Violate("G-mint", key, r.P.Pos(st.Pos()), "the APY-based reward replaces the scheduled reward without being compared with the scheduled (halved) reward itself: more than the block reward for the current halving age can be minted")
-					continue
-				}
-				if okp, w := ck.MustPass(b, []guard.Atom{guard.True(cmp)}); okp {
-					r.Discharge("G-mint", key, r.P.Pos(st.Pos()), "the APY-based reward replaces the scheduled reward only when it is smaller")
-				} else {
-					r.Violate("G-mint", key, r.P.Pos(st.Pos()), "the APY-based reward can replace the scheduled block reward even when it is larger: more than the configured block reward could be minted", w...)
+			}
+		}
+		// the same clause when the reward coin is an SSA value (not address-taken): minted := φ(scheduled, baseline)
+		for _, fr := range frames(r, anchorFn) {
+			g := fr.Fn
+			gres := r.Resolver(g)
+			gck := &guard.Checker{P: r.P, Fn: g, Res: gres}
+			for _, b := range g.Blocks {
+				for _, ins := range b.Instrs {
+					bc, ok := ins.(*ssa.Call)
+					if !ok || bc.Call.StaticCallee() == nil || bc.Call.StaticCallee().Name() != "NewCoin" {
+						continue
+					}
+					if !strings.Contains(gres.Of(bc).String(), "AnnualPercentageYield") {
+						continue
+					}
+					// merged with the scheduled coin in a φ?
+					var others []ssa.Value
+					for _, ref := range *bc.Referrers() {
+						if phi, ok := ref.(*ssa.Phi); ok {
+							for _, e := range phi.Edges {
+								if e != ssa.Value(bc) {
+									others = append(others, e)
+								}
+							}
+						}
+					}
+					if len(others) == 0 {
+						continue // the address-taken form is handled above
+					}
+					nb++
+					key := core.Key("G-mint", "node.BeginBlocker", "baseline replacement is a minimum")
+					cmp := ""
+					for _, bb := range g.Blocks {
+						if iff := lastIfOf(bb); iff != nil {
+							if c, ok := iff.Cond.(*ssa.Call); ok && c.Call.StaticCallee() != nil && c.Call.StaticCallee().Name() == "LT" && len(c.Call.Args) == 2 {
+								if fl, ok := c.Call.Args[1].(*ssa.Field); ok {
+									for _, o := range others {
+										if fl.X == o {
+											cmp = guard.Exact(gres.Of(c).String())
+										}
+									}
+								}
+							}
+						}
+					}
+					if cmp == "" {
+						r.Violate("G-mint", key, r.P.Pos(bc.Pos()), "the APY-based reward replaces the scheduled reward without being compared with the scheduled (halved) reward itself: more than the block reward for the current halving age can be minted")
+						continue
+					}
+					if okp, w := gck.MustPass(b, []guard.Atom{guard.True(cmp)}); okp {
+						r.Discharge("G-mint", key, r.P.Pos(bc.Pos()), "the APY-based reward replaces the scheduled reward only when it is smaller")
+					} else {
+						r.Violate("G-mint", key, r.P.Pos(bc.Pos()), "the APY-based reward can replace the scheduled block reward even when it is larger: more than the configured block reward could be minted", w...)
+					}
 				}
 			}
 		}
@@ -476,6 +542,45 @@ func checkSettle(r *core.Run, fnName string) {
 			}
 		}
 	}
+	// the settlement block may have been extracted into a helper (outside the rule vocabulary) that receives the
+	// pledge: the call settles if every path through the helper passes the settlement store of the right form or the
+	// "no capacity" edge
+	helperFormOK := false
+	for _, b := range fn.Blocks {
+		for _, ins := range b.Instrs {
+			c, ok := ins.(ssa.CallInstruction)
+			if !ok {
+				continue
+			}
+			h := c.Common().StaticCallee()
+			if h == nil || !r.P.Transparent(h) || len(h.Blocks) == 0 {
+				continue
+			}
+			hres := r.Resolver(h)
+			hk := &guard.Checker{P: r.P, Fn: h, Res: hres}
+			sb := map[*ssa.BasicBlock]bool{}
+			form := false
+			for _, hb := range h.Blocks {
+				for _, hi := range hb.Instrs {
+					if st, ok := hi.(*ssa.Store); ok && strings.HasSuffix(normT(hres.Of(st.Addr).String()), ".Reward.Amount") {
+						sb[hb] = true
+						vt := normT(hres.Of(st.Val).String())
+						if strings.Contains(vt, "sdk.Dec.Sub(sdk.Dec.MulInt64(") && strings.Contains(vt, ".AccRewardPerByte.Amount,") && strings.Contains(vt, ".TotalStorage)") && strings.Contains(vt, ".RewardDebt.Amount)") {
+							form = true
+						}
+					}
+				}
+			}
+			if len(sb) == 0 || !form {
+				continue
+			}
+			zc := hk.PassEdges([]guard.Atom{guard.Ge("0", "*.TotalStorage")})
+			if sb[h.Blocks[0]] || forwardAvoid(h.Blocks[0], sb, zc, isReturnBlock) == nil {
+				settle = append(settle, ins)
+				helperFormOK = true
+			}
+		}
+	}
 	if len(change) != 1 || len(persist) == 0 {
 		r.Undecide("T-settle", core.Key("T-settle", fnName, "sites"), r.P.FuncPos(fn), fmt.Sprintf("expected exactly one store to Pledge.TotalStorage and a SetPledge (found %d, %d)", len(change), len(persist)))
 		return
@@ -516,9 +621,13 @@ func checkSettle(r *core.Run, fnName string) {
 		}
 	}
 	// the settlement uses the old capacity: pending = Acc*TotalStorage - RewardDebt
-	okForm := false
+	okForm := helperFormOK
 	for _, s := range settle {
-		vt := normT(res.Of(s.(*ssa.Store).Val).String())
+		sst, isStore := s.(*ssa.Store)
+		if !isStore {
+			continue
+		}
+		vt := normT(res.Of(sst.Val).String())
 		if strings.Contains(vt, "sdk.Dec.Sub(sdk.Dec.MulInt64(") && strings.Contains(vt, ".AccRewardPerByte.Amount,") && strings.Contains(vt, ".TotalStorage)") && strings.Contains(vt, ".RewardDebt.Amount)") {
 			okForm = true
 		}
